@@ -296,30 +296,58 @@ Record gframe (sr sr' : st) : Prop := {
   gf_nodes : length (s_nodes sr) <= length (s_nodes sr');
   gf_groups : forall g x, nth_error (s_groups sr) g = Some x ->
               nth_error (s_groups sr') g = Some x
-              \/ exists ps k, x = GNoOp ps None /\ nth_error (s_groups sr') g = Some (GNoOp ps (Some k)) /\ length (s_nodes sr) <= k }.
+              \/ exists ps k, x = GNoOp ps None /\ nth_error (s_groups sr') g = Some (GNoOp ps (Some k)) /\ length (s_nodes sr) <= k;
+  (* a node no group names is left alone *)
+  gf_keep : forall k n, nth_error (s_nodes sr) k = Some n -> ~ In k (flat_map grow_node (s_groups sr)) ->
+            nth_error (s_nodes sr') k = Some n }.
 
 Lemma gframe_refl sr : gframe sr sr.
 Proof. constructor; auto. Qed.
 
-Lemma gframe_trans a b c : gframe a b -> gframe b c -> gframe a c.
+Lemma gframe_grow0 sr sr' k0 :
+  length (s_groups sr') = length (s_groups sr) ->
+  (forall g x, nth_error (s_groups sr) g = Some x ->
+              nth_error (s_groups sr') g = Some x
+              \/ exists ps k, x = GNoOp ps None /\ nth_error (s_groups sr') g = Some (GNoOp ps (Some k)) /\ length (s_nodes sr) <= k) ->
+  k0 < length (s_nodes sr) ->
+  ~ In k0 (flat_map grow_node (s_groups sr)) -> ~ In k0 (flat_map grow_node (s_groups sr')).
 Proof.
-  intros [A1 A2 A3] [B1 B2 B3]. constructor; [congruence|lia|]. intros g x Hx.
-  destruct (A3 g x Hx) as [H|(ps & k & -> & H & Hk)].
-  - destruct (B3 g x H) as [H'|(ps & k & -> & H' & Hk)]; [left; exact H'|right; exists ps, k; repeat split; [exact H'|lia]].
-  - destruct (B3 g _ H) as [H'|(ps' & k' & E & _ & _)]; [|discriminate]. right. exists ps, k. auto.
+  intros F1 F3 Hlt Hn Hin. apply in_flat_map in Hin as (x' & Hx' & Hk). apply In_nth_error in Hx' as (g & Hg).
+  assert (Hgl : g < length (s_groups sr)) by (rewrite <- F1; apply nth_error_Some; congruence).
+  destruct (nth_error (s_groups sr) g) as [x|] eqn:Ex; [|apply nth_error_None in Ex; lia].
+  destruct (F3 g x Ex) as [H|(ps & k & -> & H & Hk')].
+  - rewrite Hg in H. injection H as ->. apply Hn. apply in_flat_map. exists x. split; [eapply nth_error_In, Ex|exact Hk].
+  - rewrite Hg in H. injection H as ->. cbn in Hk. destruct Hk as [<-|[]]. lia.
 Qed.
 
-Lemma gframe_set_node sr k n : gframe sr (RowSem.set_node sr k n).
-Proof. constructor; cbn; [reflexivity|rewrite update_length; lia|auto]. Qed.
+Lemma gframe_trans a b c : gframe a b -> gframe b c -> gframe a c.
+Proof.
+  intros [A1 A2 A3 A4] [B1 B2 B3 B4]. constructor; [congruence|lia| |].
+  - intros g x Hx.
+    destruct (A3 g x Hx) as [H|(ps & k & -> & H & Hk)].
+    + destruct (B3 g x H) as [H'|(ps & k & -> & H' & Hk)]; [left; exact H'|right; exists ps, k; repeat split; [exact H'|lia]].
+    + destruct (B3 g _ H) as [H'|(ps' & k' & E & _ & _)]; [|discriminate]. right. exists ps, k. auto.
+  - intros k n Hk Hn. apply B4; [apply A4; assumption|].
+    apply (gframe_grow0 a b k A1 A3); [apply nth_error_Some; congruence|exact Hn].
+Qed.
+
+Lemma gframe_set_node sr k n : In k (flat_map grow_node (s_groups sr)) -> gframe sr (RowSem.set_node sr k n).
+Proof.
+  intros Hin. constructor; cbn; [reflexivity|rewrite update_length; lia|auto|].
+  intros k0 n0 Hk0 Hn0. rewrite update_nth_other; [exact Hk0|]. intros ->. contradiction.
+Qed.
+
+Lemma grow_in sr g x k : nth_error (s_groups sr) g = Some x -> In k (grow_node x) -> In k (flat_map grow_node (s_groups sr)).
+Proof. intros Hg Hk. apply in_flat_map. exists x. split; [eapply nth_error_In, Hg|exact Hk]. Qed.
 
 Lemma connect_loose_frame fuel : forall sr g tgt, gframe sr (connect_loose fuel sr g tgt).
 Proof.
   induction fuel as [|f IH]; intros sr g tgt; cbn; [apply gframe_refl|].
   assert (Hfold : forall X (h : X -> nat) (l : list X) s0, gframe s0 (fold_left (fun s' x => connect_loose f s' (h x) tgt) l s0)).
   { intros X h l. induction l as [|a r IHr]; intros s0; cbn; [apply gframe_refl|]. eapply gframe_trans; [apply IH|apply IHr]. }
-  destruct (nth_error (s_groups sr) g) as [[k cls|ps [k|]|ms]|]; try apply gframe_refl.
-  - destruct (nth_error (s_nodes sr) k); [apply gframe_set_node|apply gframe_refl].
-  - destruct (nth_error (s_nodes sr) k); [apply gframe_set_node|apply gframe_refl].
+  destruct (nth_error (s_groups sr) g) as [[k cls|ps [k|]|ms]|] eqn:Eg; try apply gframe_refl.
+  - destruct (nth_error (s_nodes sr) k); [apply gframe_set_node; eapply grow_in; [exact Eg|left; reflexivity]|apply gframe_refl].
+  - destruct (nth_error (s_nodes sr) k); [apply gframe_set_node; eapply grow_in; [exact Eg|left; reflexivity]|apply gframe_refl].
   - apply (Hfold _ fst).
   - apply (Hfold _ (fun m => m)).
 Qed.
@@ -334,14 +362,7 @@ Proof. intros k0 c _ _ H. exact H. Qed.
 
 Lemma gframe_grow sr sr' k0 : gframe sr sr' -> k0 < length (s_nodes sr) ->
   ~ In k0 (flat_map grow_node (s_groups sr)) -> ~ In k0 (flat_map grow_node (s_groups sr')).
-Proof.
-  intros [F1 F2 F3] Hlt Hn Hin. apply in_flat_map in Hin as (x' & Hx' & Hk). apply In_nth_error in Hx' as (g & Hg).
-  assert (Hgl : g < length (s_groups sr)) by (rewrite <- F1; apply nth_error_Some; congruence).
-  destruct (nth_error (s_groups sr) g) as [x|] eqn:Ex; [|apply nth_error_None in Ex; lia].
-  destruct (F3 g x Ex) as [H|(ps & k & -> & H & Hk')].
-  - rewrite Hg in H. injection H as ->. apply Hn. apply in_flat_map. exists x. split; [eapply nth_error_In, Ex|exact Hk].
-  - rewrite Hg in H. injection H as ->. cbn in Hk. destruct Hk as [<-|[]]. lia.
-Qed.
+Proof. intros [F1 F2 F3 F4]. apply gframe_grow0; assumption. Qed.
 
 Lemma pframe_trans sr sr' phi phi' phi'' : gframe sr sr' -> pframe sr phi phi' -> pframe sr' phi' phi'' -> pframe sr phi phi''.
 Proof.
@@ -389,14 +410,14 @@ Proof.
     destruct (nth_error (s_nodes sr) k) as [n|] eqn:En; [|discriminate].
     destruct (apply_row_edge nab n cls c tgt) as [n'|] eqn:Ea; [|discriminate]. injection Hr as <-.
     destruct (row_edge_sim fresh GP fresh_inj fresh_not_sentinel phi sr sc g k cls n tgt dd c n' _ _ rt sc' Hsim Hst Ex Ey En Hcn Hd Ea Hc)
-      as (phi' & H1 & H2 & H3). exists phi'. split; [exact H1|]. split; [exact H2|]. split; [apply gframe_set_node|].
+      as (phi' & H1 & H2 & H3). exists phi'. split; [exact H1|]. split; [exact H2|]. split; [apply gframe_set_node; eapply grow_in; [exact Ex|left; reflexivity]|].
     intros k0 c1 _ Hn0 Hc1. apply H3; [|exact Hc1]. intros ->. apply Hn0. apply in_flat_map. exists (GRow k cls).
     split; [eapply nth_error_In, Ex|left; reflexivity].
   - (* a no_op that has its decision node *)
     apply group_sim_noop_router_inv in Hxy as (k1 & ndq & rq & -> & Hps & Hk & Hnq & Hbq).
     destruct (nth_error (s_nodes sr) k) as [n|] eqn:En; [|discriminate].
     destruct (rn_dec n) as [d|] eqn:Ed; [|discriminate]. injection Hr as <-.
-    exists phi. split; [|split; [apply phi_le_refl|split; [apply gframe_set_node|apply pframe_refl]]].
+    exists phi. split; [|split; [apply phi_le_refl|split; [apply gframe_set_node; eapply grow_in; [exact Ex|left; reflexivity]|apply pframe_refl]]].
     eapply noop_edge_sim; eauto. eapply (sim_acts _ _ _ Hsim); eauto.
   - (* a no_op without decision node *)
     apply group_sim_noop_inv in Hxy as [-> Hps].
@@ -466,14 +487,15 @@ Proof.
         - intros g0 x0 Hx0. destruct (Nat.eq_dec g0 g) as [->|Hne].
           + right. assert (x0 = GNoOp ps None) by congruence. subst x0. exists ps, kr. split; [reflexivity|].
             split; [eapply update_nth_same; eauto|unfold kr; lia].
-          + left. rewrite update_nth_other by exact Hne. exact Hx0. }
+          + left. rewrite update_nth_other by exact Hne. exact Hx0.
+        - intros k0 n1 Hk0 _. apply nth_error_app_l. exact Hk0. }
       exists phi2. split; [|split; [|split]].
       * eapply noop_edge_sim; eauto.
         -- eapply (sim_acts _ _ _ Hs2); eauto.
         -- eapply dest_sim_mono; [eapply phi_le_trans; [apply phi_le_app|exact Hle2]| |exact Hd].
            eapply grows_trans; [|apply ext_grows, He2]. unfold cuu, sc1. cbn. rewrite map_app. apply grows_app.
       * eapply phi_le_trans; [apply phi_le_app|exact Hle2].
-      * eapply gframe_trans; [exact Hf01|eapply gframe_trans; [exact Hf2|apply gframe_set_node]].
+      * eapply gframe_trans; [exact Hf01|eapply gframe_trans; [exact Hf2|apply gframe_set_node; eapply grow_in; [exact Hg2|left; reflexivity]]].
       * eapply (pframe_trans sr sr1 phi phi1 phi2 Hf01); [|exact Hp2].
         intros k0 c1 _ _ Hc1. unfold phi1. apply nth_error_app_l. exact Hc1.
   - (* a block *)
